@@ -8,8 +8,18 @@ Open Scope N_scope.
 
 (* ---------------------------------------------------------------- buffers *)
 Definition lenN {A} (l : list A) : N := N.of_nat (length l).
-Definition takeN {A} (n : N) (l : list A) : list A := firstn (N.to_nat n) l.
-Definition dropN {A} (n : N) (l : list A) : list A := skipn (N.to_nat n) l.
+(* = firstn (N.to_nat n) l and skipn (N.to_nat n) l (StructProofs.takeN_firstn /
+   dropN_skipn), but without converting a possibly huge n to unary *)
+Fixpoint takeN {A} (n : N) (l : list A) : list A :=
+  match l with
+  | [] => []
+  | x :: r => if n =? 0 then [] else x :: takeN (N.pred n) r
+  end.
+Fixpoint dropN {A} (n : N) (l : list A) : list A :=
+  match l with
+  | [] => []
+  | x :: r => if n =? 0 then l else dropN (N.pred n) r
+  end.
 (* python l[a:b] for 0 <= a, 0 <= b: clips to the buffer, empty when b <= a *)
 Definition slice {A} (a b : N) (l : list A) : list A := takeN (b - a) (dropN a l).
 Definition zeros (n : N) : list N := repeat 0 (N.to_nat n).
